@@ -86,7 +86,7 @@ pub fn rdata_names(b: &[u8], code: u16, rdata_off: usize, rdata_len: usize) -> R
                 pos = nf.end;
                 out.push(nf);
             }
-            F::U8 | F::Proto3 => {
+            F::U8 | F::Proto3 | F::N3Alg | F::N3Flags => {
                 need(pos, 1)?;
                 pos += 1
             }
